@@ -106,7 +106,7 @@ class CodeGenerator(nunavut._generators.AbstractGenerator):
                     found_pp = True
                     break
             if not found_pp:
-                post_processors.append(LimitEmptyLines(limit_empty_lines))
+                post_processors = post_processors + [LimitEmptyLines(limit_empty_lines)]  # never grow the caller's list
         return post_processors
 
     @staticmethod
@@ -127,7 +127,7 @@ class CodeGenerator(nunavut._generators.AbstractGenerator):
                     found_pp = True
                     break
             if not found_pp:
-                post_processors.append(TrimTrailingWhitespace())
+                post_processors = post_processors + [TrimTrailingWhitespace()]  # never grow the caller's list
         return post_processors
 
     @classmethod
